@@ -308,8 +308,13 @@ let run_traces (files : string list) : unit =
       let (p, k) = vkind_name v.Monitors.v_kind in
       let pos = int_of_nat v.Monitors.v_pos in
       let ln = if pos >= 1 && pos <= Array.length !line_tbl then !line_tbl.(pos - 1) else 0 in
-      Printf.printf "VIOL\t%s\t%s\t%s\t%s\t%s\t%d\n" path p k (conn_name (int_of_nat v.Monitors.v_c))
-        (rid_name (int_of_nat v.Monitors.v_r)) ln) vs;
+      (* an event for a resource the client does not hold violates C02 (no stray events), C03 ("no event ... before the
+         response or event that first hands that resource to the client") and C06 ("no further events for that resource"
+         after the unsubscribe event) *)
+      let props = if v.Monitors.v_kind = Monitors.VStrayEvent then ["C02"; "C03"; "C06"] else [p] in
+      L.iter (fun p ->
+        Printf.printf "VIOL\t%s\t%s\t%s\t%s\t%s\t%d\n" path p k (conn_name (int_of_nat v.Monitors.v_c))
+          (rid_name (int_of_nat v.Monitors.v_r)) ln) props) vs;
     L.iter (fun (what, ln) -> Printf.printf "VIOL\t%s\tC20\tshutdown-contract\tc0\t%s\t%d\n" path what ln) !stop_bad;
     stop_bad := [];
     if st.stall then Printf.printf "STALL\t%s\n" path;
